@@ -5,6 +5,7 @@ package main
 import (
 	"fmt"
 	"os"
+	"go/constant"
 	"go/token"
 	"go/types"
 	"sort"
@@ -951,6 +952,7 @@ func (e *Enc) loopHead(fc *fctx, l *loopInfo, guard string, st *State) (string, 
 	// 1. invariants hold on entry
 	for _, c := range invs {
 		sc := e.specCtx(fc, st, guard)
+		e.bindLoopIndex(sc, fc, l, st)
 		goal := e.specBool(sc, c.Expr)
 		e.oblige(guard, "inv-entry", fmt.Sprintf("%sL%d.%s", fc.tag, l.idx, clauseLabel(c)), goal, e.clauseProps(fc, c), l.head.Instrs[0].Pos(), c.Src)
 	}
@@ -1023,9 +1025,11 @@ func (e *Enc) loopHead(fc *fctx, l *loopInfo, guard string, st *State) (string, 
 	// 2b. compiler-generated range index: -1 <= rangeindex <= bound-1 holds by construction of
 	// range-over-slice/string-index loops (the hidden index is assigned only by the loop header)
 	e.rangeIndexFacts(fc, l, guard, ns)
+	e.inductionFacts(fc, l, guard, ns, st)
 	// 3. assume invariants
 	for _, c := range invs {
 		sc := e.specCtx(fc, ns, guard)
+		e.bindLoopIndex(sc, fc, l, ns)
 		e.assume(guard, e.specBool(sc, c.Expr))
 	}
 	e.smoke(guard, fmt.Sprintf("%sL%d.head", fc.tag, l.idx))
@@ -1164,6 +1168,53 @@ func (e *Enc) preservePrivateSlices(cur *cursor, pre *State) {
 	}
 }
 
+// inductionFacts: a local integer that every store inside the loop only increases by a positive
+// constant (`i++`, `i += 2`) is, at the loop head, at least what it was when the loop was entered.
+// Sound by the syntactic check itself (no other store to the variable in the loop, address never taken).
+func (e *Enc) inductionFacts(fc *fctx, l *loopInfo, guard string, st, entry *State) {
+	cands := map[*ssa.Alloc]bool{}
+	for b := range l.blocks {
+		for _, ins := range b.Instrs {
+			s, ok := ins.(*ssa.Store)
+			if !ok {
+				continue
+			}
+			a, ok := s.Addr.(*ssa.Alloc)
+			if !ok || a.Heap {
+				continue
+			}
+			bt, ok := a.Type().(*types.Pointer).Elem().Underlying().(*types.Basic)
+			if !ok || bt.Info()&types.IsInteger == 0 {
+				continue
+			}
+			good := false
+			if add, ok := s.Val.(*ssa.BinOp); ok && add.Op == token.ADD {
+				if ld, ok := add.X.(*ssa.UnOp); ok && ld.Op == token.MUL && ld.X == ssa.Value(a) {
+					if c, ok := add.Y.(*ssa.Const); ok && c.Value != nil && constant.Sign(c.Value) > 0 {
+						good = true
+					}
+				}
+			}
+			if prev, seen := cands[a]; seen {
+				cands[a] = prev && good
+			} else {
+				cands[a] = good
+			}
+		}
+	}
+	for a, ok := range cands {
+		if !ok || a.Comment == "rangeindex" {
+			continue
+		}
+		now, has := st.loc[a]
+		was, had := entry.loc[a]
+		if !has || !had || strings.HasPrefix(now, "@lazy!") || strings.HasPrefix(was, "@lazy!") || now == was {
+			continue
+		}
+		e.assume(guard, fmt.Sprintf("(>= %s %s)", now, was))
+	}
+}
+
 func (e *Enc) rangeIndexFacts(fc *fctx, l *loopInfo, guard string, st *State) {
 	for _, ins := range l.head.Instrs {
 		cmp, ok := ins.(*ssa.BinOp)
@@ -1206,6 +1257,7 @@ func (e *Enc) loopBack(fc *fctx, l *loopInfo, guard string, st *State) {
 	}
 	for _, c := range e.loopInvs(fc, l) {
 		sc := e.specCtx(fc, st, guard)
+		e.bindLoopIndex(sc, fc, l, st)
 		goal := e.specBool(sc, c.Expr)
 		e.oblige(guard, "inv-step", fmt.Sprintf("%sL%d.%s#%d", fc.tag, l.idx, clauseLabel(c), e.ordinal(fmt.Sprintf("%sL%d.%s", fc.tag, l.idx, clauseLabel(c)))), goal, e.clauseProps(fc, c), l.head.Instrs[0].Pos(), c.Src)
 	}
@@ -1277,4 +1329,46 @@ func (e *Enc) typeAssumeFrom(st *State, arr, v string, t types.Type) string {
 		defer func() { e.allocOverride = "" }()
 	}
 	return e.typeAssume(st, v, t)
+}
+
+// bindLoopIndex makes `rangeindex` in the invariants of loop l denote this loop's own iteration index:
+// the compiler-generated index of a range loop, or, when the loop was written (or rewritten) as
+// `for i := 0; i < n; i++`, its induction variable minus one -- at the loop head both count the
+// completed iterations minus one.  This keeps invariants stated with rangeindex valid across
+// range <-> index conversions of the loop.
+func (e *Enc) bindLoopIndex(sc *specCtx, fc *fctx, l *loopInfo, st *State) {
+	var rangeIdx, induction *ssa.Alloc
+	for _, ins := range l.head.Instrs {
+		if ld, ok := ins.(*ssa.UnOp); ok && ld.Op == token.MUL {
+			if a, ok := ld.X.(*ssa.Alloc); ok && a.Comment == "rangeindex" && !a.Heap {
+				rangeIdx = a
+			}
+		}
+	}
+	if rangeIdx == nil {
+		if ifi, ok := l.head.Instrs[len(l.head.Instrs)-1].(*ssa.If); ok {
+			if cmp, ok := ifi.Cond.(*ssa.BinOp); ok && (cmp.Op == token.LSS || cmp.Op == token.LEQ || cmp.Op == token.NEQ) {
+				if ld, ok := cmp.X.(*ssa.UnOp); ok && ld.Op == token.MUL {
+					if a, ok := ld.X.(*ssa.Alloc); ok && !a.Heap && a.Comment != "" {
+						if b, ok := a.Type().(*types.Pointer).Elem().Underlying().(*types.Basic); ok && b.Info()&types.IsInteger != 0 {
+							induction = a
+						}
+					}
+				}
+			}
+		}
+	}
+	switch {
+	case rangeIdx != nil:
+		if t, ok := st.loc[rangeIdx]; ok && !strings.HasPrefix(t, "@lazy!") {
+			sc.vars["rangeindex"] = e.svOfTerm(t, types.Typ[types.Int])
+		}
+	case induction != nil:
+		if _, has := sc.vars["rangeindex"]; has {
+			// another loop's range index is in scope under that name: this loop has none of its own
+		}
+		if t, ok := st.loc[induction]; ok && !strings.HasPrefix(t, "@lazy!") {
+			sc.vars["rangeindex"] = e.svOfTerm(fmt.Sprintf("(- %s 1)", t), types.Typ[types.Int])
+		}
+	}
 }
